@@ -205,6 +205,27 @@ def run_files(ctx, out):
         p = os.path.join(d, "f%d" % k)
         fsutil.make_file(p, size, segs, tag=k + 1)
         files.append(p)
+    # preallocated (fallocate) regions holding freshly written, NOT yet synced data: the kernel reports such
+    # extents with the UNWRITTEN flag while the data sits in the page cache; they are data all the same
+    MiB = 1 << 20
+    for (size, regions) in [(8 * MiB, [(MiB, 64 * 1024)]), (8 * MiB + 1234, [(MiB, 128 * 1024), (8 * MiB - 65536, 65536 + 1234)]),
+                            (3 * MiB, [(0, 4096 * 3), (2 * MiB, 4096 * 5)])]:
+        p = os.path.join(d, "f%d" % len(files))
+        fd = os.open(p, os.O_CREAT | os.O_RDWR, 0o644)
+        try:
+            os.ftruncate(fd, size)
+            segs = []
+            for (off, ln) in regions:
+                a0 = off - off % 4096
+                os.posix_fallocate(fd, a0, (off + ln - a0 + 4095) // 4096 * 4096 if off + ln < size else size - a0)
+                data = fsutil.tagged_bytes(len(files) + 1, off, min(ln, size - off))
+                os.pwrite(fd, data, off)
+                segs.append((off, off + len(data)))
+        finally:
+            os.close(fd)      # no fsync: the probes below run while the data is still dirty
+        lays.append((size, segs))
+        files.append(p)
+        out.count("preallocated_unsynced_files")
     # implementation
     r1 = subprocess.run([ctx.bins["probe"], "extents"] + files, capture_output=True, text=True, timeout=600)
     r2 = subprocess.run([ctx.bins["probe"], "segments"] + files, capture_output=True, text=True, timeout=600)
